@@ -88,7 +88,53 @@ def _kw_const(scope, callee, kw):
     raise KeyError("%s(%s=<const>) not found" % (callee, kw))
 
 
+def _check_leader_glue(fn):
+    """Pin the shape of the leader's glue in Coordinator._join_and_sync that harness/props/c15.py replays and
+    Afkak.Assign.leaderAssign models: generate_assignments(members, topic_partitions={}) inside a try whose
+    `except _NeedTopicPartitions as e` handler calls _load_topic_partitions(*e.topics) and then
+    generate_assignments(members, topic_partitions=<what it returned>)."""
+
+    def gen_calls(nodes):
+        out = []
+        for st in nodes:
+            for n in ast.walk(st):
+                if isinstance(n, ast.Call) and isinstance(n.func, ast.Attribute) and n.func.attr == "generate_assignments":
+                    out.append(n)
+        return out
+
+    for t in ast.walk(fn):
+        if not isinstance(t, ast.Try):
+            continue
+        first = gen_calls(t.body)
+        if len(first) != 1:
+            continue
+        kw = {k.arg: k.value for k in first[0].keywords}
+        if not (isinstance(kw.get("topic_partitions"), ast.Dict) and not kw["topic_partitions"].keys):
+            raise KeyError("_join_and_sync: first generate_assignments call no longer passes topic_partitions={}")
+        hs = [h for h in t.handlers if isinstance(h.type, ast.Name) and h.type.id == "_NeedTopicPartitions"]
+        if len(hs) != 1 or len(t.handlers) != 1 or not hs[0].name:
+            raise KeyError("_join_and_sync: expected exactly one handler `except _NeedTopicPartitions as e`")
+        h = hs[0]
+        loads = [n for st in h.body for n in ast.walk(st) if isinstance(n, ast.Call) and isinstance(n.func, ast.Attribute) and n.func.attr == "_load_topic_partitions"]
+        if len(loads) != 1 or len(loads[0].args) != 1 or loads[0].keywords:
+            raise KeyError("_join_and_sync: expected one _load_topic_partitions(*e.topics) call in the handler")
+        a = loads[0].args[0]
+        if not (isinstance(a, ast.Starred) and isinstance(a.value, ast.Attribute) and a.value.attr == "topics" and isinstance(a.value.value, ast.Name) and a.value.value.id == h.name):
+            raise KeyError("_join_and_sync: _load_topic_partitions is no longer called with *e.topics")
+        second = gen_calls(h.body)
+        if len(second) != 1:
+            raise KeyError("_join_and_sync: expected one generate_assignments call in the handler")
+        kw2 = {k.arg: k.value for k in second[0].keywords}
+        if not isinstance(kw2.get("topic_partitions"), ast.Name):
+            raise KeyError("_join_and_sync: second generate_assignments call does not pass the loaded map")
+        if ast.dump(first[0].args[0]) != ast.dump(second[0].args[0]):
+            raise KeyError("_join_and_sync: the two generate_assignments calls take different member lists")
+        return
+    raise KeyError("_join_and_sync: leader glue (try: generate_assignments ... except _NeedTopicPartitions) not found")
+
+
 def extract(src):
+    _check_leader_glue(src.func("_group.py", "Coordinator._join_and_sync"))
     enc = src.func("kafkacodec.py", "KafkaCodec.encode_sync_group_member_assignment")
     dec = src.func("kafkacodec.py", "KafkaCodec.decode_sync_group_member_assignment")
     menc = src.func("kafkacodec.py", "KafkaCodec.encode_join_group_protocol_metadata")
